@@ -1,6 +1,6 @@
 """C46 implementation side: runs the real `least_squares` of $VERIF_REPO/python/mujoco/minimize.py.
 
-Run with /venv/bin/python and PYTHONPATH=$VERIF_REPO/python (minimize.py then comes from the tree; the
+Run with /venv/bin/python c46_minimize.py $REPO (minimize.py then comes from the tree; the
 compiled `mujoco` extension is the pre-built wheel and only provides `mju_boxQP`, which is logged as an
 oracle).  Nothing of minimize.py is re-implemented here: the residual, the `Norm` object and
 `mujoco.mju_boxQP` are wrapped so that every argument / result crossing those interfaces is logged.
@@ -29,10 +29,13 @@ import sys
 
 import numpy as np
 
-import mujoco
-from mujoco import minimize
+# usage: c46_minimize.py [REPO]   (REPO defaults to $VERIF_REPO or /repo); the tree's python/ directory is put
+# in front of sys.path so that `mujoco.minimize` is the tree's file (checked in main()).
+REPO = sys.argv[1] if len(sys.argv) > 1 else os.environ.get("VERIF_REPO", "/repo")
+sys.path.insert(0, os.path.join(REPO, "python"))
 
-REPO = os.environ.get("VERIF_REPO", "/repo")
+import mujoco  # noqa: E402
+from mujoco import minimize  # noqa: E402
 
 
 def f2h(x):
@@ -313,6 +316,7 @@ def main():
             else:
                 print("bad-op")
         except (ValueError, KeyError, IndexError, TypeError) as e:
+            sys.stderr.write("bad-op: %r\n" % (e,))
             print("bad-op")
         sys.stdout.flush()
 
